@@ -30,7 +30,7 @@ def dataset_cfg(rng, tier, prop):
         prop = "C14"   # same histories as C14: mutations interleaved with Dataset-wide operations
     cfg = {"world": "dataset", "dim_names": dims, "dim_kind": kinds, "max_rank": min(3, ndims), "max_len": rng.randint(1, 4),
            "min_len": rng.choice([0, 1, 1, 2]), "orders": sorted(rng.sample(V.ORDERS, rng.randint(1, 3))),
-           "label_kinds": V.LABEL_KINDS, "dtypes": rng.choice([["f8"], ["f8", "i8"], ["f8", "i8", "b1"]]),
+           "label_kinds": V.LABEL_KINDS, "dtypes": rng.choice([["f8"], ["f8", "i8"], ["f8", "i8", "b1"], ["f8", "i8", "O"]]),
            "nan_rate": rng.choice([0.0, 0.2]), "meta_density": rng.choice([0.0, 0.6, 1.0]), "mutable_meta": False,
            "mode": mode, "start": rng.choice(["empty", "ctor", "ctor", "ctor_diff"]),
            "op_rate": {"C13": 0.0, "C14": rng.choice([0.3, 0.5, 0.7])}[prop],
@@ -884,6 +884,11 @@ class DatasetWorld(object):
         if s["slot"] >= len(self.extracted):
             raise Skip("slot")
         v = self.extracted[s["slot"]]
+        if len(set(v.dims)) != len(v.dims):
+            # a former variable still shares Axis objects with the dataset; a later rename through the dataset can give it
+            # the same name twice.  What happens to arrays that left the dataset is not C13's subject.
+            self.count("c13:extracted_variable_became_malformed")
+            raise Skip("dims")
         labels = [py_labels(ax.values) for ax in v.axes]
         if any(any(isinstance(x, (tuple, list)) or x is None for x in l) for l in labels):
             raise Skip("labels")
@@ -1193,7 +1198,12 @@ class DatasetWorld(object):
         if d not in ds.dims:
             raise Skip("dim")
         if s["what"] == "repr":
-            repr(ds)
+            try:
+                repr(ds)
+            except Exception:
+                # pretty-printing is no claimed property (repr of a dataset holding a 0-d string variable raises on the pinned tree)
+                self.count("c13:repr_raised")
+                return "unasserted:repr"
         elif s["what"] == "var_mono":
             for k in dict.keys(ds):
                 v = dict.__getitem__(ds, k)
